@@ -244,9 +244,15 @@ func (c02) Eval(c *Chooser, env *Env) *Outcome {
 		w.Files = append(fs, w.Files[at:]...)
 		o.probe("missing_argument_file", 1)
 	}
+	if c.Weighted("world.tools", 1, 6) {
+		// the shellcheck / pyflakes integrations are on: tool latencies and completion order join the schedule
+		w.Tools = &Tools{}
+		w.Opts.Shellcheck, w.Opts.Pyflakes = "shellcheck", "pyflakes"
+		o.probe("tools_enabled", 1)
+	}
 	if env.Variant != "single" && c.Weighted("world.viamain", 1, 4) {
 		// the same run through the command line entry point: flags, stdout and the exit status
-		args := []string{"-no-color"}
+		args := []string{"-no-color", "-shellcheck=" + w.Opts.Shellcheck, "-pyflakes=" + w.Opts.Pyflakes}
 		if w.Opts.Oneline {
 			args = append(args, "-oneline")
 		}
@@ -259,6 +265,7 @@ func (c02) Eval(c *Chooser, env *Env) *Outcome {
 		w.API, w.Args = APIMain, args
 		o.probe("through_command_main", 1)
 	}
+	ApplyLogLevel(c, w)
 	o.World = w
 	if kern.RaceLane {
 		// race lane: one concurrent run per world; the detector's log is read by the worker
